@@ -22,7 +22,7 @@ from . import dictx, wirex
 LEAF_REPS = ["ClassAVP", "AfApplicationIdentifierAVP", "UserNameAVP", "ImeiAVP", "OriginHostAVP",
              "ResultCodeAVP", "AirFlagsAVP", "CcTotalOctetsAVP", "SupportedMonitoringEventsAVP",
              "AuthSessionStateAVP", "AlertReasonAVP", "ExponentAVP", "HostIpAddressAVP", "AnGwAddressAVP",
-             "EventTimestampAVP", "RedirectHostAVP"]
+             "EventTimestampAVP", "RedirectHostAVP", "FramedIpAddressAVP"]
 GROUP_REPS = ["FailedAvpAVP", "SubscriptionDataAVP"]
 
 T = tlc.tla
@@ -44,6 +44,8 @@ def rep_defs(ref):
         elif t == "Enumerated":
             vals = [list(bytes.fromhex(v)) for v in (e["values"][0], e["values"][-1])]
             datas = "{" + ", ".join(T(v) for v in vals) + "}"
+        elif t == "Address" and name == "FramedIpAddressAVP":      # RFC 7155: 4 packed octets, no family code
+            datas = "{<<10,0,0,1>>, <<0,1,2,3>>, <<0,2,0,1>>, <<255,255,255,255>>}"
         elif t == "Address":
             datas = "AddrDatas"
         elif t == "DiameterURI":
